@@ -592,3 +592,45 @@ M("C02", "history: insert ascending", FH, "        if (score BETTER_THAN entry->
 M("C02", "ctxt_sub: word 1 masked with word 0 (seed C02-1)", "include/soundswallower/fsg_lextree.h", "((src)->bv[1] = (~((sub)->bv[1]) & (src)->bv[1])) | ((src)->bv[2]", "((src)->bv[1] = (~((sub)->bv[0]) & (src)->bv[1])) | ((src)->bv[2]", "ORDER.best-of")
 M("C02", "hmm_eval: bestscore min", FS, "        if (score BETTER_THAN bestscore)\n            bestscore = score;", "        if (score WORSE_THAN bestscore)\n            bestscore = score;", "ORDER.best-of")
 M("C02", "benign: 5st temp renamed & reordered", HM, "        t0 = s4 + hmm_tprob_5st(4, 4);\n        t1 = s3 + hmm_tprob_5st(3, 4);\n        t2 = s2 + hmm_tprob_5st(2, 4);", "        t2 = s2 + hmm_tprob_5st(2, 4);\n        t1 = hmm_tprob_5st(3, 4) + s3;\n        t0 = s4 + hmm_tprob_5st(4, 4);", kind="benign")
+
+AL = "src/ps_alignment.c"
+SAS = "src/state_align_search.c"
+# ---- C04 ----------------------------------------------------------------------
+M("C04", "align: duration without +1", DC, "alignment_add_word(al, wid, seg->sf, seg->ef - seg->sf + 1);", "alignment_add_word(al, wid, seg->sf, seg->ef - seg->sf);", "PROV.A0-words")
+M("C04", "align: rewind unchecked", DC, "    if (acmod_rewind(d->acmod) < 0)\n        return NULL;\n    if (search_module_start(d->align) < 0)", "    acmod_rewind(d->acmod);\n    if (search_module_start(d->align) < 0)", "PROV.A0-words")
+M("C04", "align: first phone uses rc for lc", AL, "                = dict2pid_ldiph_lc(d2p, sent->id.pid.cipid,\n                                    dict_second_phone(dict, wid), lc);", "                = dict2pid_ldiph_lc(d2p, sent->id.pid.cipid,\n                                    dict_second_phone(dict, wid), rc);", "ROLE.A1-models")
+M("C04", "align: last phone context from first phone", AL, "            rssid = dict2pid_rssid(d2p, sent->id.pid.cipid,\n                                   dict_second_last_phone(dict, wid));", "            rssid = dict2pid_rssid(d2p, sent->id.pid.cipid,\n                                   dict_first_phone(dict, wid));", "ROLE.A1-models")
+M("C04", "align: lc not updated", AL, "        lc = dict_last_phone(dict, wid);\n    }\n\n    /* For each senone sequence", "    }\n\n    /* For each senone sequence", "ROLE.A1-models")
+M("C04", "align: rc of current word", AL, "            rc = dict_first_phone(dict, al->word.seq[i + 1].id.wid);", "            rc = dict_first_phone(dict, al->word.seq[i].id.wid);", "ROLE.A1-models")
+M("C04", "propagate: word score not reset", AL, "            went->duration = 0;\n            went->score = 0;", "            went->duration = 0;", "TWIN.A2-propagate")
+M("C04", "propagate: phone start from last child", AL, """        if (pent != last_ent) {
+            pent->start = sent->start;
+            pent->duration = 0;
+            pent->score = 0;
+        }
+        pent->duration += sent->duration;""", """        if (pent != last_ent) {
+            pent->duration = 0;
+            pent->score = 0;
+        }
+        pent->start = sent->start;
+        pent->duration += sent->duration;""", "TWIN.A2-propagate")
+M("C04", "finish: duration off by one", SAS, "            ent->duration = last_frame - ent->start;", "            ent->duration = last_frame - ent->start + 1;", "LIN.A3-backtrace")
+M("C04", "finish: score of wrong pair", SAS, "            ent->score = last.score - cur.score;", "            ent->score = cur.score - last.score;", "LIN.A3-backtrace")
+M("C04", "finish: writes span of cur state", SAS, "            itor = alignment_iter_goto(itor, last.id);", "            itor = alignment_iter_goto(itor, cur.id);", "LIN.A3-backtrace")
+M("C04", "record: history overwritten before saved", SAS, """            tokens[state_idx].id = hmm_history(hmm, j);
+            tokens[state_idx].score = hmm_score(hmm, j);
+            /* Update backpointer fields with state index. */
+            hmm_history(hmm, j) = state_idx;""", """            hmm_history(hmm, j) = state_idx;
+            tokens[state_idx].id = hmm_history(hmm, j);
+            tokens[state_idx].score = hmm_score(hmm, j);""", "LIN.A3-backtrace")
+M("C04", "populate: went used after word grow", AL, """    if ((ent = alignment_vector_grow_one(&al->word)) == NULL)
+        return 0;
+    ent->id.wid = wid;""", """    alignment_entry_t *first = al->word.seq + 0;
+    if ((ent = alignment_vector_grow_one(&al->word)) == NULL)
+        return 0;
+    if (first->start > start) return 0;
+    ent->id.wid = wid;""", "TYPESTATE.A4-stale-entry")
+M("C04", "init: ef without start", SAS, "            sas->ef[i] = ent->start + ent->duration;", "            sas->ef[i] = ent->duration;", "PROV.A5-constraints")
+M("C04", "prune: compares ef of next phone", SAS, "        if (nf > sas->ef[i])\n            continue;", "        if (i + 1 < sas->n_phones && nf > sas->ef[i + 1])\n            continue;", "PROV.A5-constraints")
+M("C04", "transition: start bound of own phone", SAS, "        if (nf < sas->sf[i + 1])\n            continue;", "        if (nf < sas->sf[i])\n            continue;", "PROV.A5-constraints")
+M("C04", "transition: in_history carried", SAS, "            hmm_enter(nhmm, newphone_score, hmm_out_history(hmm), nf);", "            hmm_enter(nhmm, newphone_score, hmm_in_history(hmm), nf);", "PROV.A5-constraints")
